@@ -37,6 +37,7 @@ FormDef(id) ==
     [] id = "ss0"     -> [t |-> "s", s |-> None, f |-> None, v |-> "0", is |-> None]
     [] id = "ss1"     -> [t |-> "s", s |-> "0", f |-> None, v |-> "1", is |-> None]
     [] id = "fstr"    -> [t |-> "str", s |-> None, f |-> "A1&B1", v |-> "a b", is |-> None]
+    [] id = "fstresc" -> [t |-> "str", s |-> None, f |-> "A1&B1", v |-> "a&b <c>", is |-> None]   \* written escaped
     [] id = "istr"    -> [t |-> "inlineStr", s |-> None, f |-> None, v |-> None, is |-> "in <l>"]
     [] id = "btrue"   -> [t |-> "b", s |-> None, f |-> None, v |-> "1", is |-> None]
     [] id = "bfalse"  -> [t |-> "b", s |-> None, f |-> "A1>B1", v |-> "0", is |-> None]
@@ -51,7 +52,7 @@ FormDef(id) ==
     [] id = "iso"     -> [t |-> "d", s |-> None, f |-> None, v |-> "2021-03-04T05:06:07Z", is |-> None]
 
 AllForms == {"num1", "num2", "numn2", "numdec", "numexp", "numbig", "numf", "nempty", "nnov", "styled", "fonly",
-             "ss0", "ss1", "fstr", "istr", "btrue", "bfalse", "ediv", "ena", "ename", "enull", "enum",
+             "ss0", "ss1", "fstr", "fstresc", "istr", "btrue", "bfalse", "ediv", "ena", "ename", "enull", "enum",
              "eref", "evalue", "egetting", "iso"}
 
 Empty == <<"_">>
@@ -61,6 +62,7 @@ FormIdeal(id) ==
     [] id \in {"nempty", "nnov", "styled", "fonly"} -> Empty
     [] id = "ss0" -> <<"s", SST[1]>>  [] id = "ss1" -> <<"s", SST[2]>>
     [] id = "fstr" -> <<"s", "a b">>  [] id = "istr" -> <<"s", "in <l>">>
+    [] id = "fstresc" -> <<"s", "a&b <c>">>
     [] id = "btrue" -> <<"b", TRUE>>  [] id = "bfalse" -> <<"b", FALSE>>
     [] id = "ediv" -> <<"e", "Div0">> [] id = "ena" -> <<"e", "NA">> [] id = "ename" -> <<"e", "Name">>
     [] id = "enull" -> <<"e", "Null">> [] id = "enum" -> <<"e", "Num">> [] id = "eref" -> <<"e", "Ref">>
